@@ -6,6 +6,6 @@ CONSTANTS
   MaxTerms = 5
 INIT Init
 NEXT Next
-INVARIANTS PowLoopInv PowResult PowRefusal PowCost EuBezoutInv EuGcdInv EuResult EuSameAsFunction FFTResult MapFlagInv MapResult MapCalls
+INVARIANTS PowLoopInv PowResult PowRefusal PowCost EuBezoutInv EuGcdInv EuResult EuSameAsFunction EuLcm EntryBugKeepsGcd FFTResult MapFlagInv MapResult MapCalls
 PROPERTIES PowDecreases EuDecreases
 CHECK_DEADLOCK FALSE
